@@ -19,7 +19,7 @@ RULE = ("per generated input (complete greedy: n <= 8, numbins 1..4, 5 objective
         "distinct on (algorithm, config, numbins, values)")
 ASSUMPTIONS = ["interruption is only possible where the code reads the clock through a patchable module-level name; 0 reads => inconclusive",
                "no-solution-yet results: complete greedy None, cbldm its initial placeholder ([0, inf], [0, inf])"]
-FLOORS = {"quick": {"distinct_nontrivial": 150, "interrupted_runs": 20000, "clock_reads": 1000}, "thorough": {"distinct_nontrivial": 1500, "interrupted_runs": 300000, "clock_reads": 10000}}
+FLOORS = {"quick": {"distinct_nontrivial": 40, "interrupted_runs": 20000, "clock_reads": 1000}, "thorough": {"distinct_nontrivial": 200, "interrupted_runs": 100000, "clock_reads": 10000}}
 OBJ3 = ("maxmin", "minmax", "diff")
 
 
